@@ -112,6 +112,19 @@ def _meta(ctx, mode, full_labels, tag):
     return r, ctx.report(rp)
 
 
+def clonehist(ctx, maxlen):
+    """CloneHist.tla: every history of <= maxlen detections / extensions, each replayed in a fresh process."""
+    _set_const(ctx, "CloneHist.cfg", "MaxLen", maxlen)
+    r = ctx.tlc_expect_ok("CloneHist.tla", "CloneHist.cfg", timeout=3000, tag="clonehist")
+    rp = os.path.join(ctx.scratch, "clonehist.json")
+    ctx.vdrive(["clonehist", "-in", r["out"], "-out", rp, "-corpus", CORPUS], timeout=6000)
+    os.remove(r["out"])
+    rep = ctx.report(rp)
+    if rep["violation_counts"].get("C03"):
+        pass
+    return rep
+
+
 def c12(ctx):
     prop = "C12"
     quick = ctx.tier == "quick"
@@ -139,9 +152,12 @@ def c02(ctx):
     r1, h = _meta(ctx, "hostile2" if quick else "hostile3", False, "meta_hostile")
     r2, d = _meta(ctx, "docs", False, "meta_docs")
     trep, results = _treetrace(ctx, quick, cov, 2)
-    violations = _vio(h, prop) + _vio(d, prop) + _tree_violations(results, prop)
+    ch = clonehist(ctx, 2 if quick else 3)
+    violations = _vio(h, prop) + _vio(d, prop) + _tree_violations(results, prop) + _vio(ch, prop)
     cov.update(
-        evaluations=h["evaluations"] + d["evaluations"] + trep["evaluations"],
+        evaluations=h["evaluations"] + d["evaluations"] + trep["evaluations"] + ch["evaluations"],
+        clone_histories=dict(histories=ch["extra"]["histories"], detections=ch["evaluations"], drift=ch["drift"], drift_samples=ch.get("drift_samples", [])[:3],
+                             rule="CloneHist.tla: every history of <= %d operations over {detect one of 13 sample classes (incl. har under json, aaf under ole, mqv under quicktime: nodes sharing a type string with an ancestor), Extend on a value RETURNED by a detection, Extend on a tree node}, each replayed in a fresh process; C02 shape clauses on every result" % (2 if quick else 3)),
         distinct_nontrivial=h["extra"]["hostile_with_charset_parameter"],
         rule="hostile labels: every sequence of <= %d symbols over 23 classes (token char, upper case, quotes, backslash, ; = , space tab CR LF ESC FF DEL %% * ( > /, valid UTF-8, lone continuation byte, 0xFF) x 7 declaration syntaxes (HTML meta unquoted / double / single quoted, http-equiv content plain and inner-quoted, XML double / single quoted) x {no mark, UTF-8 mark} x limit {default, cut inside the label}; every result must parse with mime.ParseMediaType, have a registered type, carry at most a charset parameter and only on the three text types, and have a finite parameter-free Parent chain ending at application/octet-stream; the same on all C12 documents and on every corpus detection and error path (TraceTree.tla C02 invariants). non-trivial = hostile documents whose result carries a charset parameter" % (2 if quick else 3),
         exhaustive=True,
